@@ -22,7 +22,7 @@ use swimos_messages::protocol::{
 };
 use swimos_model::Text;
 use swimos_recon::parser::parse_recognize;
-use swimos_runtime::downlink::failure::AlwaysAbortStrategy;
+use swimos_runtime::downlink::failure::{AlwaysAbortStrategy, AlwaysIgnoreStrategy};
 use swimos_runtime::downlink::{
     AttachAction, DownlinkOptions, DownlinkRuntimeConfig, IdentifiedAddress, MapDownlinkRuntime,
     ValueDownlinkRuntime,
@@ -79,6 +79,10 @@ pub enum RemoteOp {
     ExtRemove { after: u32, k: i32 },
     /// The remote closes the link.
     Unlink { after: u32 },
+    /// The remote sends an event whose body is not a valid message of the lane's kind (map downlinks; only generated
+    /// when the runtime is configured to ignore bad frames): nothing may reach the consumers for it and everything
+    /// else must carry on.
+    ExtBad { after: u32, body: String },
 }
 
 #[derive(Debug, Clone, Serialize, Deserialize, PartialEq, Eq)]
@@ -107,6 +111,9 @@ pub struct DlScenario {
     /// Start value of std's hash keys on the run's thread (iteration order of the product's HashMaps).
     #[serde(default)]
     pub hash_seed: u64,
+    /// The map runtime is given the strategy that ignores bad frames (false: it aborts on one; none is sent then).
+    #[serde(default)]
+    pub ignore_bad_frames: bool,
     pub ending: DlEnding,
     /// At quiescence (consumers attached) let time pass: the runtime must not stop.
     pub idle_probe: bool,
@@ -200,8 +207,17 @@ pub fn generate(seed: u64, map: bool) -> DlScenario {
         remote.push(RemoteOp::Unlink { after: rng.range(5, 300) as u32 });
     }
     let ending = if rng.chance(1, 5) { DlEnding::EmptyTimeout } else { DlEnding::Stop };
+    let mut br = root.sub("bad-frames");
+    let ignore_bad_frames = map && br.chance(1, 4);
+    if ignore_bad_frames {
+        for _ in 0..br.range(1, 3) {
+            let body = br.pick(&["@bogus", "@update(key:", "{", "@update(key:1,x:2) 3", "\"", "@take(x)"]).to_string();
+            remote.push(RemoteOp::ExtBad { after: br.range(1, 200) as u32, body });
+        }
+    }
     DlScenario {
         map,
+        ignore_bad_frames,
         consumers,
         remote,
         remote_read: gen_read(&mut rng),
@@ -563,7 +579,7 @@ async fn remote_lane(
         let mut i = 0;
         while i < script.len() {
             let due = match &script[i] {
-                RemoteOp::ExtSet { after, .. } | RemoteOp::ExtUpdate { after, .. } | RemoteOp::ExtRemove { after, .. } | RemoteOp::Unlink { after } => *after <= polls,
+                RemoteOp::ExtSet { after, .. } | RemoteOp::ExtUpdate { after, .. } | RemoteOp::ExtRemove { after, .. } | RemoteOp::Unlink { after } | RemoteOp::ExtBad { after, .. } => *after <= polls,
             };
             if !due {
                 i += 1;
@@ -596,6 +612,11 @@ async fn remote_lane(
                         if send(&mut out, ResponseMessage::event(origin, addr(), body.as_bytes())).await {
                             hist.borrow_mut().emitted.push((now_step(), body, "ext"));
                         }
+                    }
+                }
+                RemoteOp::ExtBad { body, .. } => {
+                    if linked && send(&mut out, ResponseMessage::event(origin, addr(), body.as_bytes())).await {
+                        hist.borrow_mut().marks.push((now_step(), format!("remote-bad-frame {body}")));
                     }
                 }
                 RemoteOp::Unlink { .. } => {
@@ -730,7 +751,7 @@ async fn run(sc: &DlScenario) -> Record {
     let config = DownlinkRuntimeConfig {
         empty_timeout: Duration::from_millis(sc.empty_timeout_ms),
         attachment_queue_size: NonZeroUsize::new(sc.att_queue.max(1) as usize).unwrap(),
-        abort_on_bad_frames: true,
+        abort_on_bad_frames: !sc.ignore_bad_frames,
         remote_buffer_size: NonZeroUsize::new(4096).unwrap(),
         downlink_buffer_size: NonZeroUsize::new(4096).unwrap(),
     };
@@ -738,11 +759,19 @@ async fn run(sc: &DlScenario) -> Record {
     let done: Rc<RefCell<Option<(u64, u64)>>> = Rc::new(RefCell::new(None));
     let done2 = done.clone();
     let rt_node = if sc.map {
-        let rt = MapDownlinkRuntime::new(att_rx, (rt_out_tx, rt_in_rx), stop_rx, address, config, AlwaysAbortStrategy);
-        exec.spawn("runtime", sc.budget as usize, async move {
-            rt.run().await;
-            *done2.borrow_mut() = Some((now_step(), (tokio::time::Instant::now() - t0).as_millis() as u64));
-        })
+        if sc.ignore_bad_frames {
+            let rt = MapDownlinkRuntime::new(att_rx, (rt_out_tx, rt_in_rx), stop_rx, address, config, AlwaysIgnoreStrategy);
+            exec.spawn("runtime", sc.budget as usize, async move {
+                rt.run().await;
+                *done2.borrow_mut() = Some((now_step(), (tokio::time::Instant::now() - t0).as_millis() as u64));
+            })
+        } else {
+            let rt = MapDownlinkRuntime::new(att_rx, (rt_out_tx, rt_in_rx), stop_rx, address, config, AlwaysAbortStrategy);
+            exec.spawn("runtime", sc.budget as usize, async move {
+                rt.run().await;
+                *done2.borrow_mut() = Some((now_step(), (tokio::time::Instant::now() - t0).as_millis() as u64));
+            })
+        }
     } else {
         let rt = ValueDownlinkRuntime::new(att_rx, (rt_out_tx, rt_in_rx), stop_rx, address, config);
         exec.spawn("runtime", sc.budget as usize, async move {
@@ -1327,6 +1356,7 @@ impl World for DlrtWorld {
         out.count("probe.commands_superseded", written.saturating_sub(h.received.len() as u64));
         out.count("fault.consumer_drop", h.writes.iter().filter(|w| matches!(w.3, COp::Drop)).count() as u64);
         out.count("fault.remote_unlinked", h.marks.iter().filter(|(_, m)| m == "remote-unlinked").count() as u64);
+        out.count("fault.remote_bad_frame", h.marks.iter().filter(|(_, m)| m.starts_with("remote-bad-frame")).count() as u64);
         out.count("fault.clock_advance", rec.time_advances);
         out.count("probe.late_joiner", rec.sc.consumers.iter().filter(|c| c.attach_delay >= 30).count() as u64);
         out.count("probe.nosync_consumer", rec.sc.consumers.iter().filter(|c| !c.sync).count() as u64);
